@@ -51,7 +51,8 @@ def plan(tier, seed):
 
 
 def in_out_values(b, t0, t1):
-    grid = [t0 - 1.0, t0 - 0.25, t0, t0 + 0.25, (t0 + t1) / 2.0, t1 - 0.25, t1, t1 + 0.25, t1 + 1.0]
+    e0, e1 = 4e-6 * max(abs(t0), 1.0), 4e-6 * max(abs(t1), 1.0)
+    grid = [t0 - 1.0, t0 - 0.25, t0 - e0, t0, t0 + e0, t0 + 0.25, (t0 + t1) / 2.0, t1 - 0.25, t1 - e1, t1, t1 + e1, t1 + 0.25, t1 + 1.0]
     ins = [x for x in grid if attach.in_documented_event(x, b, t0, t1)]
     outs = [x for x in grid if not attach.in_documented_event(x, b, t0, t1)]
     return ins, outs
